@@ -28,14 +28,14 @@ type RunConfig struct {
 	Metadata      string // none general pernode both
 	NetCap        int
 
-	Strategy  string  // random sticky pct
-	PreemptP  float64 // sticky: probability to pre-empt the running task
-	PCTDepth  int
-	TickP     float64 // relative weight of a tick while other actions are enabled
-	PartialP  float64 // probability that a delivery is a strict prefix
-	MaxSteps  int
+	Strategy   string  // random sticky pct
+	PreemptP   float64 // sticky: probability to pre-empt the running task
+	PCTDepth   int
+	TickP      float64 // relative weight of a tick while other actions are enabled
+	PartialP   float64 // probability that a delivery is a strict prefix
+	MaxSteps   int
 	ExtraSteps int
-	FaultFree bool
+	FaultFree  bool
 
 	// Down lists servers that are not started at the beginning.
 	Down []int
@@ -135,11 +135,13 @@ type Fault struct {
 	Mgr  int
 	// AtStep: fire when the main phase reaches this step (time-random placement).
 	AtStep int
-	// Site trigger: fire when a task with Role parks at Site for the K-th time.
-	Role string
-	Site string
-	K    int
-	Dir  string
+	// Site trigger: fire when a task with Role parks at Site for the K-th time
+	// (close faults use K for the number of concurrent invocations and AtVisit for the visit).
+	Role    string
+	Site    string
+	K       int
+	AtVisit int `json:",omitempty"`
+	Dir     string
 	// fired is set once the fault has been injected
 	fired bool
 	hits  int
@@ -157,20 +159,20 @@ type Call struct {
 	Op     *Op
 	CfgIdx int
 	// Targets are the server indices actually targeted (after per-node skipping).
-	Targets []int
-	Members []int
-	Req     proto.Message
-	ReqVal  string
+	Targets   []int
+	Members   []int
+	Req       proto.Message
+	ReqVal    string
 	reqSuffix string // "#u<hex>": unknown fields carried by the request (C13 profile)
 	// per-node payloads expected at the servers (server idx -> Request.Value)
 	Expect map[int]string
 
-	CtxKind   string
-	ctx       context.Context
-	cancel    context.CancelFunc
-	CtxEndSeq uint64 // seq of the event at which the context ended (0 = not ended)
+	CtxKind    string
+	ctx        context.Context
+	cancel     context.CancelFunc
+	CtxEndSeq  uint64 // seq of the event at which the context ended (0 = not ended)
 	CtxEndStep int
-	CtxErr    error
+	CtxErr     error
 
 	InvokeSeq  uint64
 	InvokeStep int
@@ -181,20 +183,20 @@ type Call struct {
 	Panic      string
 
 	// outcome
-	res      stubResult
-	HasRes   bool
-	Ret      proto.Message
-	Err      error
-	ErrText  string
-	Gets     []getResult // async Get results / correctable snapshots
-	getsStarted int
-	QFInv    []*QFInvocation
-	qfBusy   bool
-	qfMu     sync.Mutex
-	PostClose bool // invoked after Close of its manager returned
-	IsProbe   bool
-	nodeSrv   map[uint32]int
-	Observed []Observation
+	res          stubResult
+	HasRes       bool
+	Ret          proto.Message
+	Err          error
+	ErrText      string
+	Gets         []getResult // async Get results / correctable snapshots
+	getsStarted  int
+	QFInv        []*QFInvocation
+	qfBusy       bool
+	qfMu         sync.Mutex
+	PostClose    bool // invoked after Close of its manager returned
+	IsProbe      bool
+	nodeSrv      map[uint32]int
+	Observed     []Observation
 	watchStarted []int
 }
 
@@ -209,7 +211,7 @@ type Observation struct {
 	InvSeq, RetSeq uint64
 	Kind           string // get watch-closed done-closed
 	WatchLevel     int
-	Level          int    // watch: watched level; get: returned level
+	Level          int // watch: watched level; get: returned level
 	Ret            proto.Message
 	Err            error
 	Panic          string
@@ -231,14 +233,14 @@ type QFInvocation struct {
 
 // HandlerRec records one execution of a puppet handler.
 type HandlerRec struct {
-	Tok      int // -1 unknown
-	Srv, Inc int
-	Serial   int
-	Stream   *StreamRec
-	Method   string
-	ReqVal   string
-	Plan     *HandlerPlan
-	EnterSeq uint64
+	Tok       int // -1 unknown
+	Srv, Inc  int
+	Serial    int
+	Stream    *StreamRec
+	Method    string
+	ReqVal    string
+	Plan      *HandlerPlan
+	EnterSeq  uint64
 	EnterStep int
 	// ReleaseSeq: recorded immediately before the handler first calls Release or returns.
 	ReleaseSeq uint64
